@@ -91,8 +91,11 @@ def confirm_refutation(prop, target, sha, ob, rec, repo, fv=None):
     rec["replay_result"] = r
     rec["confirmed"] = doc["confirmed"]
 
-CONTRACT_KINDS = ("ensures", "ensures-exc", "raises", "must-raise", "no-exception", "callpre", "flag", "trace", "frame", "assert")
-INTERNAL_KINDS = ("inv-entry", "inv-preserved", "variant-bounded", "variant-decreases", "decreases")
+# termination measures are part of what the properties state ("always terminates"), so a failing
+# variant is a contract-level failure; loop invariants are proof artefacts (internal)
+CONTRACT_KINDS = ("ensures", "ensures-exc", "raises", "must-raise", "no-exception", "callpre", "flag", "trace", "frame", "assert",
+                  "decreases", "variant-bounded", "variant-decreases")
+INTERNAL_KINDS = ("inv-entry", "inv-preserved")
 
 
 def solve_all(prop, target, fv, obs, repo, tier, timeout_ms, cross, budget_s=None):
